@@ -1,4 +1,6 @@
-(* C03 (a) -- HashedIterable as a concurrent object (hashed_data.py:136 __iter__), hand model.
+(* C03 (a) -- HashedIterable as a concurrent object (hashed_data.py __iter__), hand models.
+   The faithful model of the CURRENT code is [rstep]/[rrun] further down (commit 1997e3c).  [hstep]/[run] model the
+   PREVIOUS iterator (below) and are kept for the regression statements C03_refuted_interleave / C03_refuted_dup.
 
      def __iter__(self):
          yield from self.values.values()        # live dict view: size change => RuntimeError at the next step
@@ -104,18 +106,25 @@ Fixpoint seq_run (ops : list op) (S : sys) : option sys :=
   | o :: r => seq_run r (step o S)
   end.
 
-(* ---- the repaired iterator: index-based replay (proposed fix, see the report) ----------------
+(* ---- the CURRENT iterator (krrood commit 1997e3c): positional replay of a per-round snapshot, one new element per round --
      def __iter__(self):
-         i = 0
+         index = 0
          while True:
-             if i < len(self.values): v = <i-th value of the dict>
+             cached = list(self.values.values())[index:]          # snapshot of what is cached beyond my position
+             if cached:
+                 for v in cached:
+                     index += 1
+                     yield v
+                 continue
+             if not hasattr(self.iterable, "__next__"): self.iterable = iter(self.iterable)
+             for v in self.iterable:                               # ONE shared source
+                 if v.id_ not in self.values:                      # an id already cached is skipped (duplicates yield once)
+                     self.values[v.id_] = v
+                     break                                         # ... and is replayed from the cache on the next round
              else:
-                 v = next(self._source, SENTINEL)          # shared generator
-                 while v is not SENTINEL and v.id_ in self.values: v = next(self._source, SENTINEL)   # skip duplicates
-                 if v is SENTINEL: return
-                 self.values[v.id_] = v
-             i += 1; yield v                                                                          *)
-Inductive rstate := RLive (i : nat) | RDone | RClosed.
+                 return
+   Handle state: the position [i] and the part [pend] of the current snapshot not yet yielded. *)
+Inductive rstate := RLive (i : nat) (pend : list hv) | RDone | RClosed.
 
 Fixpoint rpull (c s : list hv) : option hv * list hv * list hv :=
   match s with
@@ -125,26 +134,27 @@ Fixpoint rpull (c s : list hv) : option hv * list hv * list hv :=
 
 Definition rstep (d : dstate) (h : rstate) : out * dstate * rstate :=
   match h with
-  | RLive i =>
-      match nth_error (cache d) i with
-      | Some v => (OYield v, d, RLive (S i))
-      | None => match rpull (cache d) (src d) with
-                | (Some v, c, r) => (OYield v, {| cache := c; src := r |}, RLive (S i))
-                | (None, c, r) => (OStop, {| cache := c; src := r |}, RDone)
-                end
+  | RLive i (v :: p) => (OYield v, d, RLive (S i) p)
+  | RLive i [] =>
+      match skipn i (cache d) with
+      | v :: p => (OYield v, d, RLive (S i) p)
+      | [] => match rpull (cache d) (src d) with
+              | (Some v, c, r) => (OYield v, {| cache := c; src := r |}, RLive (S i) [])   (* next round: cached = [v] *)
+              | (None, c, r) => (OStop, {| cache := c; src := r |}, RDone)
+              end
       end
   | RDone => (OStop, d, RDone)
   | RClosed => (OStop, d, RClosed)
   end.
 
-Definition rclose (h : rstate) : rstate := match h with RLive _ => RClosed | x => x end.
+Definition rclose (h : rstate) : rstate := match h with RLive _ _ => RClosed | x => x end.
 
 Definition rhandle := (rstate * list hv)%type.
 Record rsys := { rdom : dstate; rhs : list rhandle }.
 
 Definition rsysstep (o : op) (S : rsys) : rsys :=
   match o with
-  | Create => {| rdom := rdom S; rhs := rhs S ++ [(RLive 0, [])] |}
+  | Create => {| rdom := rdom S; rhs := rhs S ++ [(RLive 0 [], [])] |}
   | Next h =>
       match nth_error (rhs S) h with
       | None => S
@@ -168,6 +178,16 @@ Fixpoint exhaust (fuel : nat) (d : dstate) (h : hstate) (acc : list hv) : option
   | O => None
   | S f => match hstep d h with
            | (OYield v, d', h') => exhaust f d' h' (acc ++ [v])
+           | (OStop, d', _) => Some (acc, d')
+           | (OErr, _, _) => None
+           end
+  end.
+
+Fixpoint rexhaust (fuel : nat) (d : dstate) (h : rstate) (acc : list hv) : option (list hv * dstate) :=
+  match fuel with
+  | O => None
+  | S f => match rstep d h with
+           | (OYield v, d', h') => rexhaust f d' h' (acc ++ [v])
            | (OStop, d', _) => Some (acc, d')
            | (OErr, _, _) => None
            end
